@@ -49,6 +49,27 @@ PROPS = {
         technique="Lean 4 theorems over a bit-exact software-binary64 model + differential correspondence with the Go code",
     ),
 
+    "C06": dict(
+        modules=["SpatialId.Props.C06"],
+        families=[("line", 4000, 30000), ("f64", 5000, 50000)],
+        trusted_base=COMMON_TB + F64_TB + ["the row of every latitude the recursion looks up is an oracle table produced by the "
+                                            "harness with the library's own (hooked) function"],
+        assumptions=["theorem line_connected assumes (and the driver evaluates on every case) that the recursion's end voxels are those "
+                     "of the stored end points and that every threshold stop leaves touching voxels (thrTight)"],
+        claim="Theorems (Props/C06.lean) about the bit-exact binary64 model of the midpoint recursion, for every voxel function: the "
+              "voxels emitted for a sub-segment together with its end voxels contain a chain of touching (26-adjacent or equal) "
+              "voxels from the start voxel to the end voxel (middle_connected, by induction over the four branches); the exported "
+              "result is duplicate-free, contains both end voxels, is a single ID when both ends share a voxel (line_spec) and "
+              "is connected under the stated side conditions (line_connected); zoom errors; every emitted voxel is the voxel "
+              "of a dyadic point of the segment, and in exact arithmetic such points lie on the segment (middle_dyadic, "
+              "mid_on_segment). The model equals the Go code exactly (set comparison) on generated segments: axis-parallel, "
+              "diagonal, through corners, across f = 0, near the latitude limit, zooms 28-35 weighted. An independent checker "
+              "on the implementation's output verifies end voxels, duplicates, 26-connectivity and that every voxel is touched "
+              "by the segment (slab test with stated tolerances).",
+        note="partial: 'touched by the straight segment' is proved only for exact arithmetic / checked numerically for binary64; "
+             "row indices depend on libm (oracle). Known finding D12 (non-idempotent SetLat -> rare disconnected chain).",
+        technique="Lean 4 theorems over a bit-exact software-binary64 model + differential correspondence + independent geometric checker",
+    ),
     "C07": dict(
         modules=["SpatialId.Props.C07"],
         families=[("shift", 20000, 150000), ("shift2", 8000, 60000)],
